@@ -390,7 +390,13 @@ func cmdSweep(args []string) {
 			if len(res.Unmodelled) > 0 {
 				um = fmt.Sprintf(" unmodelled=%d", len(res.Unmodelled))
 			}
-			lines[i] = fmt.Sprintf("%-60s obl=%d open=%d%s %s", k, len(rs), len(bad), um, trunc(strings.Join(bad, " | "), 300))
+			recvName := ""
+			if recv := f.Signature.Recv(); recv != nil {
+				if _, isPtr := recv.Type().(*types.Pointer); isPtr {
+					recvName = recv.Name()
+				}
+			}
+			lines[i] = fmt.Sprintf("%-60s obl=%d open=%d%s pkg=%s key=%s recv=%s %s", k, len(rs), len(bad), um, f.Pkg.Pkg.Name(), funcDisplayName(f), recvName, trunc(strings.Join(bad, " | "), 300))
 		}(i, k, f)
 	}
 	wg.Wait()
